@@ -11,6 +11,7 @@ import (
 	"sort"
 	"strconv"
 	"strings"
+	"sync"
 	"time"
 
 	"golang.org/x/tools/go/ssa"
@@ -316,6 +317,7 @@ func cmdCheck(args []string) int {
 	inconclusive := []string{}
 	funcsEncoded := map[string]int{}
 	stubs := map[string]bool{}
+	var xqs []xQuery
 	knownHits := map[string]Violation{}
 	vacuous := []string{}
 	type valCase struct {
@@ -493,6 +495,49 @@ func cmdCheck(args []string) int {
 		for _, e := range ex.solverEr {
 			inconclusive = append(inconclusive, "solver error: "+e)
 		}
+		xqs = append(xqs, ex.xq...)
+	}
+	// cross-solver comparison of sampled queries: cvc5 (bit-blasting) and z3 4.8.12 must not
+	// contradict the primary solver's sat/unsat verdicts (their unknown/timeout says nothing)
+	if os.Getenv("SYMGO_NO_XCHECK") == "" {
+		if len(xqs) > 60 {
+			step := len(xqs) / 60
+			var pick []xQuery
+			for i := 0; i < len(xqs); i += step {
+				pick = append(pick, xqs[i])
+			}
+			xqs = pick
+		}
+		type xres struct{ a, b Result }
+		out := make([]xres, len(xqs))
+		var wg sync.WaitGroup
+		sem := make(chan struct{}, 8)
+		for i := range xqs {
+			wg.Add(1)
+			go func(i int) {
+				defer wg.Done()
+				sem <- struct{}{}
+				defer func() { <-sem }()
+				out[i].a = RunScript([]string{"cvc5", "--tlimit=10000"}, xqs[i].Script, 12*time.Second)
+				out[i].b = RunScript([]string{"z3", "-T:10", "-in"}, xqs[i].Script, 12*time.Second)
+			}(i)
+		}
+		wg.Wait()
+		for i, q := range xqs {
+			cov.CrossChecked++
+			for k, r := range []Result{out[i].a, out[i].b} {
+				name := []string{"cvc5", "z3-4.8.12"}[k]
+				switch {
+				case r == Unknown:
+					cov.CrossUnknown++
+				case r == q.Res:
+					cov.CrossAgreed++
+				default:
+					inconclusive = append(inconclusive, fmt.Sprintf("solver disagreement on a sampled query of %s: primary=%s %s=%s", q.Harness, q.Res, name, r))
+					os.WriteFile(filepath.Join(verifDir, "out", fmt.Sprintf("disagree-%s-%d.smt2", id, i)), []byte(q.Script), 0o644)
+				}
+			}
+		}
 	}
 	cov.LoadS = loadS
 	cov.FunctionsEncoded = len(funcsEncoded)
@@ -668,6 +713,9 @@ type Coverage struct {
 	FunctionsSample    []string         `json:"functions_encoded_repo"`
 	Stubs              []string         `json:"stubs"`
 	SampleQueries      []string         `json:"sample_queries"`
+	CrossChecked       int              `json:"cross_solver_sampled_queries"`
+	CrossAgreed        int              `json:"cross_solver_verdicts_agreeing"`
+	CrossUnknown       int              `json:"cross_solver_verdicts_unknown"`
 	Harnesses          []*HarnessResult `json:"harnesses"`
 	KnownFindings      []string         `json:"known_findings_matched"`
 	ViolationList      []map[string]any `json:"violation_list"`
